@@ -62,4 +62,14 @@ theorem proxy_wiring_pinned :
     grpcInterceptorLit = ["lit proxy.GrpcProxyInterceptor {AuthSchemes=LoadAuthSchemes#0; Config=p0; GlobCache=route.NewGlobCache(p0.GlobCacheSize); StatsHandler=p2}"] ∧
     grpcNewServer = ["[!(ListenTCP#1 != nil)] call grpc.NewServer(p1...)"] := ⟨rfl, rfl, rfl⟩
 
+/-- the relay library: the operations on the two streams in grpc-proxy's two forwarding goroutines and in the
+cases of its handler's `select`, read from the module version the repo's `go.mod` selects (module cache) — the
+micro-steps `Model/C16Relay.lean` interleaves (`RecvMsg`; `Header` + `SendHeader` before the first `SendMsg`;
+`CloseSend` on `io.EOF`, cancel + `Internal` otherwise; `SetTrailer(Trailer())` + the backend's error). `c16.call`
+compares every forwarded call with that model. Empty lists = module source not found. -/
+theorem relay_library_pinned :
+    relayClientToServerOps = ["src.RecvMsg", "src.Header", "dst.SendHeader", "dst.SendMsg"] ∧
+    relayServerToClientOps = ["src.RecvMsg", "dst.SendMsg"] ∧
+    relaySelectCases = ["case s2cErr := <-s2cErrChan: clientStream.CloseSend; clientCancel; return status.Errorf(codes.Internal, \"failed proxying s2c: %v\", s2cErr)", "case c2sErr := <-c2sErrChan: serverStream.SetTrailer; clientStream.Trailer; return c2sErr; return nil"] := ⟨rfl, rfl, rfl⟩
+
 end Fabio.Props.C16Pins
